@@ -225,6 +225,20 @@ pub fn endpoints() -> Vec<EndpointD> {
             ],
         },
         EndpointD {
+            name: "tagMix",
+            method: Method::GET,
+            segments: vec!["u", "tagmix", "{}"],
+            handler: "tag_mix",
+            args: vec![
+                arg(0, Path, "plainPath", "string", false, true, true),
+                arg(1, Query("rq"), "retryQuery", "string", false, true, true),
+                arg(2, Query("utq"), "unsafeTagQuery", "string", false, true, true),
+                arg(3, Header("x-upper"), "upperHeader", "string", false, true, true),
+                arg(4, Query("ma"), "markerAlike", "string", false, true, true),
+                arg(5, Query("rs"), "realSafe", "string", true, true, true),
+            ],
+        },
+        EndpointD {
             name: "authCookie",
             method: Method::GET,
             segments: vec!["u", "auth", "cookie"],
